@@ -30,7 +30,7 @@ TParseURI == /\ IsEvent("ParseURI") /\ Ev.detail = ""
 TNameKey == /\ IsEvent("NameKey")
             /\ Ev.key \in KeyClasses /\ InClass(Ev.mh, Ev.key)
             /\ Ev.rk = RoutingKeyOf(Ev.mh)
-            /\ c' = [k |-> "b", key |-> Ev.key, mh |-> Ev.mh]
+            /\ c' = [k |-> "b", key |-> Ev.key, mh |-> Ev.mh, ops |-> <<>>]
 \* NameFromRoutingKey on a byte string derived from the current key: result = the rule, byte for byte
 TNameRK == /\ IsEvent("NameRK") /\ c.k = "b"
            /\ Ev.v \in RkVariants /\ Ev.d = RkInput(Ev.v, c.mh)
@@ -38,7 +38,37 @@ TNameRK == /\ IsEvent("NameRK") /\ c.k = "b"
            /\ FromRoutingKey(Ev.d) = Ev.r
            /\ UNCHANGED c
 
-TNext == TParse \/ TParseURI \/ TNameKey \/ TNameRK
+
+(* value sessions (PathSyntax: SStep).  VOpen: a path value was created from Ev.t; VCall: one call of the
+   session alphabet on it -- Scribble included, which is a step like any other and leaves the value alone.
+   After EVERY step the harness re-observes the value through all the handles it holds (the original, copies
+   taken before / after, wrappers) and every value derived earlier: Ev.vals must all be the session's value,
+   Ev.ders[i] the result the spec gave for the call that derived it, Ev.open the still unscribbled slices. *)
+TVOpen == /\ IsEvent("VOpen") /\ Ev.detail = ""
+          /\ Parse(Ev.t) = Ev.p /\ Ev.p.ok
+          /\ c' = [k |-> "v", t |-> Ev.t, ops |-> <<>>]
+StepResult(fam, o, v) == SStep(fam, o, [val |-> v, res |-> <<>>]).res[1]
+TVCall == /\ IsEvent("VCall") /\ c.k = "v" /\ Ev.detail = ""
+          /\ LET o == [op |-> Ev.op, of |-> Ev.of]  v == Parse(c.t)  ops2 == Append(c.ops, o) IN
+             /\ o \in NextCalls(PathOps, c.ops)
+             /\ Ev.r = StepResult("v", o, v)
+             /\ \A i \in 1..Len(Ev.vals) : Ev.vals[i] = v
+             /\ \A i \in 1..Len(Ev.ders) : Ev.ders[i].of \in 1..Len(ops2) /\ ops2[Ev.ders[i].of].op \in {"Reparse", "Join", "FromSegs"}
+                                              /\ Ev.ders[i].p = PathResult(ops2[Ev.ders[i].of].op, v)
+             /\ \A i \in 1..Len(Ev.open) : Ev.open[i].of \in OpenSlices(ops2)
+                                              /\ ops2[Ev.open[i].of].op = "Segments" /\ Ev.open[i].sg = v.segs
+             /\ c' = [c EXCEPT !.ops = Append(@, o)]
+\* ... and on the name of the current binary key (after NameKey)
+TNCall == /\ IsEvent("NCall") /\ c.k = "b" /\ Ev.detail = ""
+          /\ LET o == [op |-> Ev.op, of |-> Ev.of]  ops2 == Append(c.ops, o) IN
+             /\ o \in NextCalls(NameOps, c.ops)
+             /\ Ev.r = StepResult("w", o, c.mh)
+             /\ \A i \in 1..Len(Ev.vals) : Ev.vals[i] = [mh |-> c.mh, rk |-> RoutingKeyOf(c.mh)]
+             /\ \A i \in 1..Len(Ev.open) : Ev.open[i].of \in OpenSlices(ops2)
+                                              /\ ops2[Ev.open[i].of].op = "RoutingKey" /\ Ev.open[i].b = RoutingKeyOf(c.mh)
+             /\ c' = [c EXCEPT !.ops = Append(@, o)]
+
+TNext == TParse \/ TParseURI \/ TNameKey \/ TNameRK \/ TVOpen \/ TVCall \/ TNCall
 TSpec == TInit /\ [][TNext]_tvars
 
 TraceConstraint == TLCSet(1, IF l - 1 > TLCGet(1) THEN l - 1 ELSE TLCGet(1))
